@@ -16,8 +16,8 @@ from sim.prng import Rng
 ID = "C23"
 LEVEL = "exploration"
 BUDGET = {
-    "quick": {"runs": 550, "time_cap": 150, "determinism_sample": 12, "shrink_runs": 120},
-    "thorough": {"runs": 9000, "time_cap": 1500, "determinism_sample": 60, "shrink_runs": 300},
+    "quick": {"runs": 550, "time_cap": 150, "determinism_sample": 12, "shrink_runs": 120, "min_runs": 120},
+    "thorough": {"runs": 9000, "time_cap": 1500, "determinism_sample": 60, "shrink_runs": 300, "min_runs": 300},
 }
 BOUNDS = "quick: 1-12 (thorough: 1-20) generated lines per session (plus probe lines), <=3 statements per line, names from a pool of 8 variables (3 of them shadow builtin names) and 3 functions, lines < 250 characters"
 RULE = ("each run = one REPL session: a seeded history of definitions, redefinitions, assignments, function definitions "
